@@ -44,6 +44,15 @@ def _init_then_media(fn: ast.AST) -> bool:
                 return True
             if has_init(n.orelse) and has_media(n.body) and not has_media(n.orelse) and not has_init(n.body):
                 return True
+    # (c) assigned as attributes: `X.init = R[0]` and `X.media = R[1:]` (or `X.media.extend(R[1:])`) for one list R
+    inits = {norm(a.value) for a in ast.walk(fn) if isinstance(a, ast.Assign) and norm(a.targets[0]).endswith('.init')}
+    medias = {norm(a.value) for a in ast.walk(fn) if isinstance(a, ast.Assign) and norm(a.targets[0]).endswith('.media')}
+    medias |= {norm(c_.args[0]) for c_ in ast.walk(fn) if isinstance(c_, ast.Call) and (call_name(c_) or '').endswith('.media.extend')
+               and len(c_.args) == 1}
+    for i_ in inits:
+        m_ = re.fullmatch(r'(\w+)\[0\]', i_)
+        if m_ and f'{m_.group(1)}[1:]' in medias and len(medias) == 1:
+            return True
     head = tail = None
     for n in ast.walk(fn):
         if isinstance(n, ast.Assign) and isinstance(n.targets[0], (ast.Tuple, ast.List)):
@@ -780,7 +789,12 @@ def r06_9(rep: Report) -> None:
                 for v in names:
                     if 'num_media_segments' in norm(subst_locals(fn, v)):
                         continue
-                    if any(isinstance(a_, ast.Assign) and len(a_.targets) == 1 and norm(a_.targets[0]) == v.id
+                    # the index itself, or the index it was computed from (`following = index + 1`)
+                    feeds = {v.id} | {x.id for a_ in ast.walk(fn) if isinstance(a_, (ast.Assign, ast.AnnAssign))
+                                      and getattr(a_, 'value', None) is not None
+                                      and norm(a_.targets[0] if isinstance(a_, ast.Assign) else a_.target) == v.id
+                                      for x in ast.walk(a_.value) if isinstance(x, ast.Name)}
+                    if any(isinstance(a_, ast.Assign) and len(a_.targets) == 1 and norm(a_.targets[0]) in feeds
                            and (isinstance(a_.value, ast.Constant) or norm(a_.value).endswith('start_number'))
                            for b_ in list(n.body) + list(n.orelse) for a_ in ast.walk(b_)):
                         return True
